@@ -12,6 +12,10 @@ Driver of C13.  Ops (one per line):
                                                                           `TSigVerifier::verify`
 * `srv  <origin> <allow_update> <deny|all|signed> <signers|-> <now> <buf> <rdok> <journal>`
                                                                           Catalog + SqliteZoneHandler
+* `udp  <signer> <reqmac> <request_time> <reqid> (<buf> <rdok> <parseok> <qok>)*`
+      the datagrams received by the real `UdpClientStream` (with a signer) for one signed request
+      (`udpRecv`); `<signer>`'s `macok` is the verdict for the datagram that reaches the verifier
+* the last token of `srv` is the store: `0`/`1` sqlite without/with journal, `m` in-memory, `f` file
 * `begin vseq <signer> <reqmac> <request_time> <req>` / `vmsg <buf> <rdok> <parseok> <macok>` … / `end`
       ONE `TSigVerifier` fed a sequence of messages; the driver threads the model's `Verifier`
       (`Verifier.verify` per message = `Verifier.verifySeq` over the block)
@@ -81,6 +85,24 @@ def handle (toks : List String) : Option String :=
     let first ← parseBool first; let rdok ← parseBool rdok
     pure (showOutcome (fun v => s!"{toHex v.mac} {v.time} {v.lo} {v.hi}")
       (verifyMessageByte sg buf prev first rdok))
+  | "udp" :: sg :: reqmac :: qt :: reqid :: dgrams => do
+    let sg ← parseSigner sg
+    let reqmac ← parseHex reqmac; let qt ← qt.toNat?; let reqid ← reqid.toNat?
+    let rec parseDgrams : List String → Option (List (Bytes × Bool × Bool × Bool))
+      | [] => some []
+      | buf :: rdok :: pok :: qok :: rest => do
+        let buf ← parseHex buf; let rdok ← parseBool rdok; let pok ← parseBool pok
+        let qok ← parseBool qok
+        let r ← parseDgrams rest
+        pure ((buf, rdok, pok, qok) :: r)
+      | _ => none
+    let ds ← parseDgrams dgrams
+    let v : Verifier := { signer := sg, previous := reqmac, remoteTime := 0, requestTime := qt }
+    pure (match udpRecv v reqid 3 ds with
+      | .ok (some v') => s!"ok {toHex v'.previous} {v'.remoteTime}"
+      | .ok none => "err"
+      | .err => "err"
+      | .panic m => "panic " ++ m)
   | ["ssm", buf] => do
     let buf ← parseHex buf
     pure (match shouldSign buf with | some b => showBool b | none => "err")
@@ -99,7 +121,8 @@ def handle (toks : List String) : Option String :=
     let origin ← parseName origin; let au ← parseBool au; let pol ← parsePolicy pol
     let sgs ← parseSigners sgs; let now ← now.toNat?
     let buf ← parseHex buf; let rdok ← parseBool rdok
-    let cfg : ZoneCfg := { origin := origin, allowUpdate := au, axfr := pol, signers := sgs }
+    let cfg : ZoneCfg := { origin := origin, allowUpdate := au, axfr := pol, signers := sgs,
+                           inMemory := (_journal == "m" || _journal == "f") }
     let id := (rd16 buf 0).getD 0
     pure (match serve cfg buf now rdok with
       | .ok none => "noparse"
